@@ -14,7 +14,8 @@ import (
 )
 
 // Val is a format argument. K: i integer (S decimal), s string, c character
-// (S holds the one rune), y symbol (S the name), l list (L; empty = nil).
+// (S holds the one rune), y symbol (S the name), l list (L; empty = nil),
+// o any other object (S is its source text; opaque to the renderer).
 type Val struct {
 	K string `json:"k"`
 	S string `json:"s,omitempty"`
